@@ -4,8 +4,10 @@ package main
 // sequence of Lock / Unlock / deferred Unlock calls, block structure (if / else / for / switch / case /
 // closure), every way of leaving (return, break, continue, goto + labels, panic) and every access to
 // state shared between a connection's own thread and the threads that walk the connection list
-// (c.InvStore, X.InvDone.Map, X.PendingInvs, X.GetBlockInProgress writes, peersdb.PeerDB.Put/Del) with
-// the lock that has to be held there. Lean (Model/NetParseLocks.lean) runs a lock-set scan over these
+// (c.InvStore, X.InvDone.Map, X.PendingInvs, X.GetBlockInProgress writes, peersdb.PeerDB.Put/Del, and the
+// statistics map X.counters - any mention of the field, and any call of a COUNTER HELPER, i.e. a method
+// that touches its receiver's counters without taking the receiver's Mutex itself: cntInc / cntAdd in the
+// current source, found by that shape and not by name) with the lock that has to be held there. Lean (Model/NetParseLocks.lean) runs a lock-set scan over these
 // traces: no exit with a lock taken in the function still held, no second Lock of a held mutex, every
 // shared access inside its lock's span.
 
@@ -53,6 +55,24 @@ type lockWalker struct {
 
 type callLock struct{ callee, lock string }
 
+// counterHelpers: bare names of the methods that read or write <receiver>.counters and do not lock
+// <receiver>.Mutex themselves (main.go finds them in a first pass over the package). They are left out of
+// the traces like InvStore: the contract "call with the connection's mutex held" is checked at every call
+// site instead, which becomes a shared access needing <receiver expression>.Mutex. GetStats (the UI thread)
+// ranges over the same map under that mutex; a write outside it is not a silent data race but a fatal
+// "concurrent map iteration and map write" of the Go runtime, which no recover() catches.
+var counterHelpers = map[string]bool{}
+
+// touchesCounters: the trace mentions the receiver's counters map
+func (w *lockWalker) touchesCounters() bool {
+	for _, a := range w.accesses {
+		if a.what == "c.counters" && a.lock == "c.Mutex" {
+			return true
+		}
+	}
+	return false
+}
+
 func (w *lockWalker) emit(k int, arg string) { w.out = append(w.out, ltok{k, arg}) }
 
 func (w *lockWalker) need(what, lock string) {
@@ -95,6 +115,14 @@ func (w *lockWalker) expr(e ast.Node) {
 					if show(f.X) == "peersdb.PeerDB" {
 						w.need(show(x.Fun), "peersdb")
 					}
+				default:
+					if counterHelpers[f.Sel.Name] {
+						for _, a := range x.Args {
+							w.expr(a)
+						}
+						w.need(show(f.X)+"."+f.Sel.Name+"(…)", show(f.X)+".Mutex")
+						return false
+					}
 				}
 				// a call of a method / of another package's function: resolved against the traces later
 				if x != w.skipCall {
@@ -122,7 +150,7 @@ func (w *lockWalker) expr(e ast.Node) {
 			}
 		case *ast.SelectorExpr:
 			// X.InvDone.Map / X.PendingInvs: read or written, the connection's mutex protects them
-			if x.Sel.Name == "PendingInvs" {
+			if x.Sel.Name == "PendingInvs" || x.Sel.Name == "counters" {
 				w.need(show(x), show(x.X)+".Mutex")
 				return false
 			}
